@@ -1,5 +1,6 @@
 import GarbleVerif.Proofs.BitCore
 import GarbleVerif.Proofs.BitShape
+import GarbleVerif.Proofs.BitMatch
 /-!
 # The bit-level evaluation of the core fragment refines the source semantics
 
@@ -207,7 +208,132 @@ theorem litMul_res_rel (k : IntTy) (n0 : Int) (hpos : 0 < n0) (y : List Bool) (v
     · rw [h1 hr]
       simp [ResRel, VRel, Rel, seqP, hr, henv2]
 
-theorem exprOK_succ (prog : Prog) (fuel : Nat) (ihE : ExprOK prog fuel) (ihS : StmtsOK prog fuel) :
+/-! ### the arm loop of `match` -/
+
+theorem EnvRel.arm {env1 : Src.Env} {benv1 : BEnv} (henv : EnvRel env1 benv1) (bind : Option String) (ts : STy)
+    (v : Val) (sb : List Bool) (hrel : Rel ts v sb) : EnvRel (bindsOf bind v ++ env1) (Bit.armEnv bind ts sb benv1) := by
+  cases bind with
+  | none => simpa [bindsOf, Bit.armEnv] using henv
+  | some x => simpa [bindsOf, Bit.armEnv] using EnvRel.cons hrel henv
+
+theorem armOut_eq_restoreB (bind : Option String) (ts : STy) (sb : List Bool) (benv1 enve : BEnv)
+    (hs : shape enve = shape (armEnv bind ts sb benv1)) : armOut bind enve = restoreB benv1 enve := by
+  have hl : enve.length = (armEnv bind ts sb benv1).length := by
+    rw [← shape_length enve, hs, shape_length]
+  cases bind with
+  | none => simp [armOut, restoreB, armEnv] at hl ⊢; simp [hl]
+  | some x =>
+    simp only [armEnv, List.length_cons] at hl
+    simp only [armOut, restoreB, hl]
+    congr 1; omega
+
+/-- once an arm has matched, the remaining arms change nothing -/
+theorem arms_after_match : ∀ (arms : Arms) (benv1 : BEnv) (ts : STy) (sb : List Bool) (tr : VTy) (rb : List Bool)
+    (pacc : P) (envAcc : BEnv) (st' : ArmSt),
+    bitArms benv1 ts sb arms (true, some (tr, rb), pacc, envAcc) = some st' → shape envAcc = shape benv1 →
+    st' = (true, some (tr, rb), pacc, envAcc)
+  | .nil, _, _, _, _, _, _, _, st', h, _ => by
+    simp only [bitArms, Option.some.injEq] at h; exact h.symm
+  | .cons p e rest, benv1, ts, sb, tr, rb, pacc, envAcc, st', h, hs => by
+    simp only [bitArms] at h
+    split at h
+    · simp at h
+    · rename_i m bind hpb
+      split at h
+      · simp at h
+      · rename_i te be pe enve he
+        have hse := shapeE e _ _ _ _ _ he
+        have hout : shape (armOut bind enve) = shape benv1 := by
+          rw [armOut_eq_restoreB bind ts sb benv1 enve hse]
+          cases bind with
+          | none => exact shape_restoreB _ _ [] (by simpa [armEnv] using hse)
+          | some x => exact shape_restoreB _ _ [(x, ts)] (by simpa [armEnv] using hse)
+        simp only [Bool.not_true, Bool.false_and, Bool.false_eq_true, if_false, Bool.true_or] at h
+        rw [muxEnv_false _ _ (by rw [hout]; exact hs.symm)] at h
+        split at h
+        · exact arms_after_match rest benv1 ts sb tr rb pacc envAcc st' h hs
+        · simp at h
+
+/-- the arm loop against `evalArms`: the first arm whose pattern matches decides value, panic and variables -/
+theorem arms_ok (prog : Prog) (N : Nat) (ihLow : ∀ f, f ≤ N → ExprOK prog f) :
+    ∀ (arms : Arms) (f : Nat), f ≤ N + 1 → ∀ (env1 : Src.Env) (benv1 : BEnv) (ts : STy) (v : Val) (sb : List Bool),
+      Rel ts v sb → EnvRel env1 benv1 → ∀ (ret : Option (VTy × List Bool)) (st' : ArmSt),
+      bitArms benv1 ts sb arms (false, ret, none, benv1) = some st' →
+      match evalArms f prog env1 v arms with
+      | .ok (r, env2) => st'.1 = true ∧ ∃ t bs, st'.2.1 = some (t, bs) ∧ VRel t r bs ∧ st'.2.2.1 = none ∧
+          EnvRel env2 st'.2.2.2
+      | .error (.panic k) => st'.2.2.1 = some k
+      | .error (.stuck _) => lastIsCatchAll arms = false
+      | .error .fuel => True
+  | .nil, f, _, env1, benv1, ts, v, sb, _, _, ret, st', _ => by
+    cases f <;> simp [evalArms, lastIsCatchAll]
+  | .cons p e rest, f, hf, env1, benv1, ts, v, sb, hrel, henv, ret, st', h => by
+    cases f with
+    | zero => simp [evalArms]
+    | succ f =>
+      simp only [bitArms] at h
+      split at h
+      · simp at h
+      · rename_i m bind hpb
+        have hmp := patBits_sound p ts v sb m bind hrel hpb
+        split at h
+        · simp at h
+        · rename_i te be pe enve he
+          have hse := shapeE e _ _ _ _ _ he
+          have hout : shape (armOut bind enve) = shape benv1 := by
+            rw [armOut_eq_restoreB bind ts sb benv1 enve hse]
+            cases bind with
+            | none => exact shape_restoreB _ _ [] (by simpa [armEnv] using hse)
+            | some x => exact shape_restoreB _ _ [(x, ts)] (by simpa [armEnv] using hse)
+          rw [evalArms, hmp]
+          cases m with
+          | false =>
+            -- the pattern does not match: nothing is selected, go on with the rest
+            simp only [Bool.false_eq_true, if_false, Bool.not_false, Bool.and_false, Bool.or_false] at h ⊢
+            rw [muxEnv_false _ _ (by rw [hout])] at h
+            have hlast : lastIsCatchAll (.cons p e rest) = lastIsCatchAll rest := by
+              cases p <;> cases rest <;> simp [lastIsCatchAll]
+              -- an identifier pattern always matches
+              all_goals (simp [patBits] at hpb)
+            have ih := fun ret' (hh : bitArms benv1 ts sb rest (false, ret', none, benv1) = some st') =>
+              arms_ok prog N ihLow rest f (by omega) env1 benv1 ts v sb hrel henv ret' st' hh
+            rw [hlast]
+            split at h
+            · split at h
+              · exact ih _ h
+              · simp at h
+            · exact ih _ h
+          | true =>
+            -- the pattern matches: this arm decides
+            simp only [if_true, Bool.not_false, Bool.and_true, Bool.or_true, Bool.true_and, Bool.false_or] at h ⊢
+            rw [muxEnv_true _ _ (by rw [← shape_length, hout, shape_length])] at h
+            have hfin : st' = (true, some (te, be), pe, armOut bind enve) := by
+              split at h
+              · split at h
+                · rename_i htr; subst htr
+                  exact arms_after_match rest benv1 ts sb _ _ _ _ st' h hout
+                · simp at h
+              · exact arms_after_match rest benv1 ts sb _ _ _ _ st' h hout
+            subst hfin
+            have ihe := ihLow f (by omega) e (bindsOf bind v ++ env1) (armEnv bind ts sb benv1) te be pe enve
+              (henv.arm bind ts v sb hrel) he
+            cases hev : evalExpr f prog (bindsOf bind v ++ env1) e with
+            | error er =>
+              rw [hev] at ihe
+              cases er with
+              | panic k => exact ihe
+              | stuck w => exact ihe.elim
+              | fuel => trivial
+            | ok res =>
+              obtain ⟨r, env2⟩ := res
+              rw [hev] at ihe
+              obtain ⟨hp0, hvr, henv2⟩ := ihe
+              refine ⟨rfl, te, be, rfl, hvr, hp0, ?_⟩
+              rw [armOut_eq_restoreB bind ts sb benv1 enve hse]
+              exact EnvRel.restore henv henv2
+
+theorem exprOK_succ (prog : Prog) (fuel : Nat) (ihE : ExprOK prog fuel) (ihS : StmtsOK prog fuel)
+    (ihLow : ∀ f, f ≤ fuel → ExprOK prog f) :
     ExprOK prog (fuel + 1) := by
   intro e env benv t bs p benv' henv hb
   cases e with
@@ -684,6 +810,45 @@ theorem exprOK_succ (prog : Prog) (fuel : Nat) (ihE : ExprOK prog fuel) (ihS : S
         simp only [evalList, ResRel, VRel]
         exact ⟨trivial, by first | trivial | exact ⟨rfl, rfl⟩, henv⟩
     | cons _ _ => simp [bitExpr] at hb
+  | match_ scrut arms =>
+    simp only [bitExpr] at hb
+    split at hb
+    · rename_i ts sb ps env1 hs
+      split at hb
+      · rename_i hlast
+        split at hb
+        · rename_i hp t' bs' pa envF ha
+          simp only [Option.some.injEq, Prod.mk.injEq] at hb
+          obtain ⟨rfl, rfl, rfl, rfl⟩ := hb
+          have ihs := ihE scrut env benv _ _ _ _ henv hs
+          rw [evalExpr]
+          cases hev : evalExpr fuel prog env scrut with
+          | error er => rw [hev] at ihs; exact ihs.error_of (fun p => seqP p _) (fun _ => rfl)
+          | ok res =>
+            obtain ⟨v, enva⟩ := res
+            rw [hev] at ihs
+            obtain ⟨rfl, hrel, henv1⟩ := ihs
+            have harms := arms_ok prog fuel ihLow arms fuel (by omega) enva env1 ts v sb hrel henv1 none _ ha
+            simp only
+            cases hea : evalArms fuel prog enva v arms with
+            | error er =>
+              rw [hea] at harms
+              cases er with
+              | panic k => simp only [ResRel, seqP]; exact harms
+              | stuck w => rw [hlast] at harms; simp at harms
+              | fuel => trivial
+            | ok resa =>
+              obtain ⟨r, env2⟩ := resa
+              rw [hea] at harms
+              obtain ⟨_, t2, bs2, hsome, hvr, hpn, henv2⟩ := harms
+              simp only [Option.some.injEq, Prod.mk.injEq] at hsome
+              obtain ⟨rfl, rfl⟩ := hsome
+              simp only at hpn henv2
+              subst hpn
+              exact ⟨rfl, hvr, henv2⟩
+        · simp at hb
+      · simp at hb
+    · simp at hb
   | _ => simp [bitExpr] at hb
 
 
@@ -746,10 +911,11 @@ theorem stmtOK_succ (prog : Prog) (fuel : Nat) (ihE : ExprOK prog fuel) : StmtOK
               rw [hev] at ih
               obtain ⟨rfl, hrel, henv1⟩ := ih
               obtain ⟨⟨ov, hov⟩, hset⟩ := henv1.set x t' old bs1 v hg hrel
+              simp only [hov]
               cases fuel with
               | zero => simp [evalPath, ResRel]
               | succ f =>
-                simp only [evalPath, hov, updateAt, ResRel, VRel]
+                simp only [evalPath, updateAt, ResRel, VRel]
                 exact ⟨trivial, by first | trivial | exact ⟨rfl, rfl⟩, hset⟩
           · simp at hb
         · simp at hb
@@ -808,12 +974,23 @@ theorem all_zero (prog : Prog) : ExprOK prog 0 ∧ StmtsOK prog 0 ∧ StmtOK pro
   · intro e env benv t bs p benv' _ _; simp [evalStmts, ResRel]
   · intro e env benv t bs p benv' _ _; simp [evalStmt, ResRel]
 
-/-- the refinement, for every fuel -/
-theorem core_all (prog : Prog) : ∀ fuel, ExprOK prog fuel ∧ StmtsOK prog fuel ∧ StmtOK prog fuel
-  | 0 => all_zero prog
-  | fuel + 1 =>
-    have ih := core_all prog fuel
-    ⟨exprOK_succ prog fuel ih.1 ih.2.1, stmtsOK_succ prog fuel ih.2.1 ih.2.2, stmtOK_succ prog fuel ih.1⟩
+/-- the refinement, for every fuel (strong induction: the arms of a `match` are evaluated with less fuel) -/
+theorem core_all_le (prog : Prog) : ∀ n f, f ≤ n → ExprOK prog f ∧ StmtsOK prog f ∧ StmtOK prog f
+  | 0, f, hf => by
+    have : f = 0 := by omega
+    subst this; exact all_zero prog
+  | n + 1, f, hf => by
+    have ih := core_all_le prog n
+    rcases Nat.lt_or_ge f (n + 1) with hlt | hge
+    · exact ih f (by omega)
+    · have : f = n + 1 := by omega
+      subst this
+      have ihn := ih n (Nat.le_refl _)
+      exact ⟨exprOK_succ prog n ihn.1 ihn.2.1 (fun f' hf' => (ih f' hf').1),
+        stmtsOK_succ prog n ihn.2.1 ihn.2.2, stmtOK_succ prog n ihn.1⟩
+
+theorem core_all (prog : Prog) (fuel : Nat) : ExprOK prog fuel ∧ StmtsOK prog fuel ∧ StmtOK prog fuel :=
+  core_all_le prog fuel fuel (Nat.le_refl _)
 
 end Bit
 end GV
